@@ -269,6 +269,20 @@ func cmdCheck(args []string) int {
 		rr := racCache[o.Fn]
 		if rr == nil {
 			rr = g.RacSearch(*repo, *verif, o.Fn, o, sv, *tier)
+			if !rr.Ran || rr.Input == "" {
+				// fall back to the property's bounded group harnesses for a concrete failing input
+				for _, b := range pc.Bounded {
+					br := racCache["bounded:"+b]
+					if br == nil {
+						br = g.RacSearch(*repo, *verif, b, nil, sv, *tier)
+						racCache["bounded:"+b] = br
+					}
+					if br.Input != "" {
+						rr = br
+						break
+					}
+				}
+			}
 			racCache[o.Fn] = rr
 		}
 		rp := filepath.Join(replayDir, sanitize(o.Name)+".json")
@@ -324,7 +338,10 @@ func cmdCheck(args []string) int {
 	// bounded stand-ins
 	var bounded []map[string]interface{}
 	for _, b := range pc.Bounded {
-		rr := g.RacSearch(*repo, *verif, b, nil, sv, *tier)
+		rr := racCache["bounded:"+b]
+		if rr == nil {
+			rr = g.RacSearch(*repo, *verif, b, nil, sv, *tier)
+		}
 		entry := map[string]interface{}{"function": b, "cases": rr.Cases, "bound": rr.Bound, "ran": rr.Ran, "note": rr.Note}
 		bounded = append(bounded, entry)
 		if rr.Input != "" {
